@@ -268,9 +268,9 @@ fn gen(path: &str) {
     let mut out = Out::create(path);
     let mut rng = rng(8);
     let thorough = thorough();
-    let n_valid = if thorough { 16000 } else { 2400 };
-    let n_pairs = if thorough { 5000 } else { 800 };
-    let n_invalid = if thorough { 2400 } else { 400 };
+    let n_valid = if thorough { 24000 } else { 2400 };
+    let n_pairs = if thorough { 7000 } else { 800 };
+    let n_invalid = if thorough { 3000 } else { 400 };
     let mut run = 0i64;
     let mut counts = std::collections::BTreeMap::new();
     let mut bump = |k: &str| *counts.entry(k.to_string()).or_insert(0usize) += 1;
